@@ -125,7 +125,12 @@ pub fn run(ctx: &Ctx) -> i32 {
             c.ud = Some(UserDataM { text: Some(format!("cel f{} l{}", f, l)), color: None });
         }
         let mut res = CaseResult::ok(gen::features(&sp), 0, "ok");
-        let var = if i % 2 == 0 { Variation::none() } else { Variation::only(8) };
+        // plain / permuted cel chunks / junk in the reserved bytes of cel chunks (where later format versions keep a z-index)
+        let var = match i % 4 {
+            0 | 2 => Variation::none(),
+            1 => Variation::only(8),
+            _ => Variation::only(3),
+        };
         let spec = compile_with(&sp, &mut rng, &var, &palprog);
         let (bytes, _) = encode(&spec);
         match load(&bytes) {
